@@ -263,13 +263,29 @@ def run(ctx):
     import mgr_common as mc
     ncases = []
     for i in range(ctx.pick(120, 2500)):
-        c = mc.gen_history(ctx.rng, ["assign", "mixed", "dag", "frozen", "windows"][i % 5], nofun=True, attrdict=(i % 2 == 0),
+        # function and linear-knob tasks (name- and ref-identified) in a third of the managers
+        c = mc.gen_history(ctx.rng, ["assign", "mixed", "dag", "frozen", "windows", "mixed"][i % 6], nofun=(i % 6 != 5), attrdict=(i % 2 == 0),
                            values="mixed" if i % 3 == 2 else "int")
         lv = mc.leaves_of(c)
+        if ctx.rng.random() < 0.3:          # the state at the moment of pickling: an update that failed half-way (stale dependants,
+            t = ctx.rng.choice(lv)          # a LinearKnob whose remembered source value lags behind)
+            c["ops"] += [["arm", ctx.rng.choice([0, 1, 1, 2]), "Fault"], ["set", t, ["plain", ctx.rng.randint(-9, 9)], "sv"], ["disarm"]]
         if ctx.rng.random() < 0.25:         # the state at the moment of pickling: frozen / unfrozen again
             c["ops"] += [["freeze"]] if ctx.rng.random() < 0.7 else [["freeze"], ["unfreeze"]]
         c["ops"].append(["picklecheck", [[ctx.rng.choice(lv), ctx.rng.randint(-9, 9)] for _ in range(4)]])
         ncases.append(c)
+    # linear-knob tasks whose remembered source value lags behind the source at the moment of pickling (an update that failed
+    # before / while the knob ran), then follow-ups on the source
+    for i in range(ctx.pick(30, 500)):
+        S, T1, T2, X = (["c", ["i", k]] for k in "abcd")
+        v0, v1 = ctx.rng.randint(-9, 9), ctx.rng.randint(-9, 9)
+        ops = [["set", S, ["plain", v0], "sv"],
+               ["regknob", ctx.rng.choice(["kn", {"ref": T1}]), S, [[ctx.rng.randint(1, 3), T1], [ctx.rng.randint(1, 3), T2]]],
+               ["set", X, ["expr", ["bin", "+", ["ref", T1], ["ref", T2]]], "sv"],
+               ["set", S, ["plain", ctx.rng.randint(-9, 9)], "item"],
+               ["arm", ctx.rng.choice([1, 1, 2]), "Fault"], ["set", S, ["plain", v1], "sv"], ["disarm"],
+               ["picklecheck", [[S, ctx.rng.randint(-9, 9)], [S, ctx.rng.randint(-9, 9)], [T2, 1]]]]
+        ncases.append({"store": [["c", {"kind": "dict", "items": [[k, 0] for k in "abcd"]}]], "ops": ops})
     nested_fail = []
     for b in ("compiled", "pure"):
         nobs = mc.run_impl_cases(ncases, build=b)
